@@ -8,8 +8,11 @@ PID = "C01"
 LEVEL_TEXT = ("Proof: Coq theorems, for all glyph sets / component depths / non-singular affine transforms, that the pen chain "
               "ufo2ft drives (flat decomposition with composed matrices, reversal by sign of the composed determinant) equals the "
               "nested resolved outline as a list of contours (nothing lost, duplicated, reordered); reversal is an involution "
-              "commuting with affine maps; det is multiplicative; otRound is nearest-integer-halves-up. Tied to /repo by "
-              "correspondence at two levels: OTFPreProcessor's glyph set vs the Gallina `decompose` (exact rationals, point level) "
+              "commuting with affine maps; det is multiplicative; otRound is nearest-integer-halves-up; and the DecomposeComponentsFilter "
+              "pass as BaseFilter drives it -- glyph by glyph, IN PLACE, in ANY visiting order -- raises nothing, keeps widths/anchors "
+              "and leaves every visited glyph flat with exactly its nested resolved outline (invariant over the fold). Tied to /repo by "
+              "correspondence at two levels: OTFPreProcessor's glyph set vs the Gallina in-place pass run in the visiting order observed on "
+              "the real filter (exact rationals, point level; this also pins the behaviour for singular matrices, where the order matters) "
               "and compiled CFF/CFF2 outlines + hmtx vs the rounded model; the nested spec `resolve` is evaluated in Coq on the "
               "implementation's output; quadratic glyphs are additionally checked against an independent segment-level reference.")
 LEVEL_NOTE = ("Trusted: Coq kernel; hand-written model of fontTools' DecomposingFilterPointPen/TransformPointPen/ReverseContourPointPen "
